@@ -33,7 +33,7 @@ RULE = ("random pairs x window x penalty x psi x inner_dist x ndim x site in {dt
 GUARD = "non-degenerate psi; window None or >= 1; penalty >= 0"
 
 SITES = ["py.best_path_rc", "py.warping_path", "c.warping_path", "c.best_path_compact", "py.best_path_on_c",
-         "c.customstart", "py.warping_path_ndim", "py.warp"]
+         "c.customstart", "py.warping_path_ndim", "py.warp", "c.warping_path_ndim"]
 
 
 def gen_cases(rng, tier):
@@ -44,8 +44,15 @@ def gen_cases(rng, tier):
         site = SITES[k % len(SITES)]
         nd = rng.choice([2, 3]) if site.endswith("ndim") else 1
         case = dtwgen.rand_case(rng, site, maxlen=maxlen, ndim=nd, allow_mld=False)
-        if nd > 1:
+        if nd > 1 or site == "c.warping_path_ndim":
             case["settings"]["inner_dist"] = "squared euclidean"
+        if site == "c.warping_path_ndim":
+            if case["r"] > case["c"]:
+                case["s1"], case["s2"] = case["s2"], case["s1"]
+                p = case["settings"]["psi"]
+                if isinstance(p, list):
+                    case["settings"]["psi"] = [p[2], p[3], p[0], p[1]]
+                dtwgen.derived(case)
         if site in ("py.best_path_rc", "c.customstart"):
             case["start"] = [rng.randint(1, case["r"]), rng.randint(1, case["c"])]
             if site == "c.customstart":
@@ -127,6 +134,14 @@ def impl_run(case):
         d = dtw.distance(s1, s2, **kw)
         warped, p = dtw.warp(s1, s2, **kw)
         return {"path": p, "d": d, "warped": [float(x) for x in warped]}
+    if site == "c.warping_path_ndim":
+        # the compiled n-dimensional entry point (used by the C-assisted barycenter averaging); first series must not
+        # be longer than the second here: a length mix-up then stays inside the buffers
+        a = np.ascontiguousarray(s1.reshape(len(case["s1"]), nd))
+        b = np.ascontiguousarray(s2.reshape(len(case["s2"]), nd))
+        stt = dtw.DTWSettings(**{k: v for k, v in kw.items() if k != "inner_dist"})
+        p, d = dtw_cc.warping_path_ndim(a, b, ndim=nd, include_distance=True, **stt.c_kwargs())
+        return {"path": p, "d": d, "forced_sq": True}
     if site == "py.warping_path_ndim":
         p, d = dtw.warping_path(s1, s2, include_distance=True, use_ndim=True, **kw)
         return {"path": p, "d": d}
